@@ -349,9 +349,11 @@ func (d *Document) getSectionProperties() *SectionProperties {
 		return &SectionProperties{}
 	}
 
-	// 在Elements中查找已存在的SectionProperties（可能在任何位置）
-	for _, element := range d.Body.Elements {
-		if sectPr, ok := element.(*SectionProperties); ok {
+	// 在Elements中查找已存在的SectionProperties（可能在任何位置）。打开的多节文档里，段落级的
+	// w:sectPr 也在列表中；文档的页面设置是最后一个（正文级的）节属性，序列化时写出的也是它，
+	// 所以从后往前找
+	for i := len(d.Body.Elements) - 1; i >= 0; i-- {
+		if sectPr, ok := d.Body.Elements[i].(*SectionProperties); ok {
 			return sectPr
 		}
 	}
@@ -374,8 +376,8 @@ func (d *Document) setSectionProperties(sectPr *SectionProperties) {
 		return
 	}
 
-	for i, element := range d.Body.Elements {
-		if _, ok := element.(*SectionProperties); ok {
+	for i := len(d.Body.Elements) - 1; i >= 0; i-- {
+		if _, ok := d.Body.Elements[i].(*SectionProperties); ok {
 			d.Body.Elements[i] = sectPr
 			return
 		}
